@@ -53,6 +53,7 @@ type TermInCommittee struct {
 	prevBlock                       interfaces.Block
 	QuorumWeight                    uint // TODO primitive
 	State                           *state.State
+	onElectionCB                    interfaces.OnElectionCallback
 }
 
 func GetMemberIds(members []interfaces.CommitteeMember) []primitives.MemberId {
@@ -99,6 +100,7 @@ func NewTermInCommittee(log L.LHLogger, config *interfaces.Config, state *state.
 		messageFactory:          messageFactory,
 		myMemberId:              myMemberId,
 		logger:                  log,
+		onElectionCB:            config.OnElectionCB,
 	}
 
 	result.startTerm(canBeFirstLeader)
@@ -858,28 +860,41 @@ func (tic *TermInCommittee) HandleNewView(nvm *interfaces.NewViewMessage) {
 		// validate under the context of the view this node is still in: the NEW_VIEW's own view is only entered (and
 		// its election timer armed) after the validation, so nothing would cancel that view's context if the timer of
 		// the current view fired meanwhile
-		ctx, err := tic.State.Contexts.For(tic.State.HeightView())
-		if err != nil {
-			// the main loop has already timed the current view out and the trigger is on its way to this worker: act on
-			// it now (enter the next view, arm its timer) and handle the NEW_VIEW from there instead of dropping it
+		for {
 			current := tic.State.HeightView()
-			tic.moveToNextLeaderByElection(current.Height(), current.View(), nil)
-			if tic.State.View() > nvmHeader.View() {
-				tic.logger.Info("LHMSG RECEIVED NEW_VIEW IGNORE - the view of the message has timed out: current view %d, message view %d", tic.State.View(), nvmHeader.View())
+			ctx, err := tic.State.Contexts.For(current)
+			if err != nil {
+				// the context of the current view is gone. If that is the election timeout of this view (the next view's
+				// context is still to be had; a sync to a higher height or shutdown takes that away too), the main loop has
+				// processed it and the trigger is on its way to this worker: act on it now (enter the next view, arm its
+				// timer) and handle the NEW_VIEW from there instead of dropping it
+				if _, nextErr := tic.State.Contexts.For(state.NewHeightView(current.Height(), current.View()+1)); nextErr != nil {
+					tic.logger.Info("LHFLOW LHMSG RECEIVED NEW_VIEW IGNORE - %e", err)
+					return
+				}
+				tic.moveToNextLeaderByElection(current.Height(), current.View(), tic.onElectionCB)
+				if tic.State.View() > nvmHeader.View() {
+					tic.logger.Info("LHMSG RECEIVED NEW_VIEW IGNORE - the view of the message has timed out: current view %d, message view %d", tic.State.View(), nvmHeader.View())
+					return
+				}
+				if tic.State.View() == current.View() { // could not enter the next view
+					return
+				}
+				continue
+			}
+
+			// TODO Is this the correct member Id or should it be ppm.Content().Sender().MemberId()?
+			err = tic.blockUtils.ValidateBlockProposal(ctx, ppm.BlockHeight(), tic.calcLeaderMemberId(header.View()), ppm.Block(), ppm.Content().SignedHeader().BlockHash(), tic.prevBlock)
+			if err == nil {
+				break
+			}
+			if ctx.Err() == nil {
+				tic.logger.Info("LHFLOW LHMSG RECEIVED NEW_VIEW IGNORE - Proposed block failed ValidateBlockProposal: %s", err)
 				return
 			}
-			ctx, err = tic.State.Contexts.For(tic.State.HeightView())
-		}
-		if err != nil {
-			tic.logger.Info("LHFLOW LHMSG RECEIVED NEW_VIEW IGNORE - %e", err)
-			return
-		}
-
-		// TODO Is this the correct member Id or should it be ppm.Content().Sender().MemberId()?
-		err = tic.blockUtils.ValidateBlockProposal(ctx, ppm.BlockHeight(), tic.calcLeaderMemberId(header.View()), ppm.Block(), ppm.Content().SignedHeader().BlockHash(), tic.prevBlock)
-		if err != nil {
-			tic.logger.Info("LHFLOW LHMSG RECEIVED NEW_VIEW IGNORE - Proposed block failed ValidateBlockProposal: %s", err)
-			return
+			// the context was cancelled during the validation: the consumer gave up, which says nothing about the block.
+			// Go round: act on the timeout that cancelled it and validate again from the next view, unless that passes
+			// the view of this NEW_VIEW
 		}
 		// a proposal the consumer has approved is adopted even if the current view's context was cancelled meanwhile
 		// (its timeout leads to the very view this NEW_VIEW opens)
